@@ -19,6 +19,7 @@ LEVEL = "exploration"
 MOD = "mc.props.C07"
 
 CMP = {"lt": operator.lt, "le": operator.le, "gt": operator.gt, "ge": operator.ge, "eq": operator.eq, "ne": operator.ne}
+NP_CMP = {"lt": np.less, "le": np.less_equal, "gt": np.greater, "ge": np.greater_equal, "eq": np.equal, "ne": np.not_equal}
 SHAPE_PAIRS = [("3", "3"), ("0d", "0d"), ("3", "0d"), ("0d", "3"), ("2x3", "3"), ("2x3", "2x3"), ("1", "3")]
 FACT = np.array([0.99, 1.0, 1.01])
 
@@ -34,6 +35,9 @@ def cases(thorough):
                         if not thorough and kind == "Quantity" and (s1, s2) != ("3", "3"):
                             continue
                         yield {"block": "cmp", "op": op, "u1": u1, "u2": u2, "d1": d1, "s1": s1, "s2": s2, "kind": kind}
+                        # the sibling spelling of the same comparison: the numpy function instead of the operator
+                        if d1 in ("f8", "i8") and (s1, s2) in (("3", "3"), ("3", "0d"), ("0d", "3")):
+                            yield {"block": "cmp", "op": op, "u1": u1, "u2": u2, "d1": d1, "s1": s1, "s2": s2, "kind": kind, "route": "numpy"}
         # exact integer pairs (both operands integers)
         for (u1, u2, ratio) in (("m", "cm", 100), ("kg", "g", 1000), ("km", "m", 1000)):
             for d1, d2 in (("i8", "i8"), ("i4", "i4"), ("i8", "i4"), ("f8", "i8")):
@@ -57,7 +61,7 @@ def run_case(acc, idx, c):
     A_ = osyris.Array
     blk = c["block"]
     if blk in ("cmp", "cmp_int", "cmp_bare"):
-        op = CMP[c["op"]]
+        op = NP_CMP[c["op"]] if c.get("route") == "numpy" else CMP[c["op"]]
         s1i, d1i, t1i = _arr.uinfo(c["u1"])
         if blk == "cmp":
             sh1, sh2 = _arr.SHAPES[c["s1"]], _arr.SHAPES[c["s2"]]
